@@ -47,6 +47,9 @@ def op_strategies(set_funcs=SET_FUNCS, list_funcs=LIST_FUNCS, symbols=False, loa
     for f in set_funcs:
         fields = dict(k=set_kind, p=st.integers(0, 5), f=st.just(f), cs=cs)
         fields["as"] = how
+        if f in ("update", "ior", "iand", "isub", "ixor"):
+            fields["as"] = st.one_of(how, how, how, st.just("view"))
+            fields["q"] = st.integers(0, 5)
         if f in ("discard", "remove", "isub"):
             fields["xk"] = st.sampled_from([0, 0, 0, 1, 2])
         if f == "update":
@@ -58,6 +61,8 @@ def op_strategies(set_funcs=SET_FUNCS, list_funcs=LIST_FUNCS, symbols=False, loa
         fields = {"i": st.integers(0, 3), "f": st.just(f), "ms": cs, "a": small, "as": how}
         if f in ("delslice", "setslice"):
             fields.update(a=sl, b=sl, s=st.one_of(st.none(), st.none(), st.sampled_from([1, 2, -1, -2, 3])))
+        if f in ("extend", "iadd"):
+            fields["as"] = st.one_of(how, how, how, st.just("view"))
         if f == "setslice":
             fields["perm"] = st.one_of(st.none(), st.integers(0, 8))
         if f == "remove":
